@@ -193,7 +193,15 @@ where
                         if code == "R" || code == "p" {
                             continue; // reset palette not implemented
                         }
-                        let mut param = "".to_owned();
+                        // A terminator right after the introducer ends an empty string.
+                        let mut first = code.clone();
+                        if first == ESC {
+                            first.push_str(&co.yield_(None).unwrap_or_default());
+                        }
+                        if OSC_TERMINATORS.contains(&first.as_str()) {
+                            continue;
+                        }
+                        let mut param: String = first.chars().skip(1).collect();
 
                         'param_loop: loop {
                             let mut accu = co.yield_(None).unwrap_or_default();
@@ -319,7 +327,15 @@ where
                         if code == "R" || code == "p" {
                             continue; // reset palette not implemented
                         }
-                        let mut param = "".to_owned();
+                        // A terminator right after the introducer ends an empty string.
+                        let mut first = code.clone();
+                        if first == ESC {
+                            first.push_str(&co.yield_(None).unwrap_or_default());
+                        }
+                        if OSC_TERMINATORS.contains(&first.as_str()) {
+                            continue;
+                        }
+                        let mut param: String = first.chars().skip(1).collect();
 
                         'param_loop: loop {
                             let mut accu = co.yield_(None).unwrap_or_default();
